@@ -31,19 +31,21 @@ INSTANCES = [
     conc('conc_cap1', 1, 'true', 1, 4, ['quick', 'thorough'],
          'capacity 1 (2 slots); ' + KINDS + 'producer ops 0,1,2; consumer ops 3,0,1; symbolic start offset and pre-fill; 4 scheduler rounds (thorough 6)',
          VF_PK=0, VF_CK=3, thorough={'steps': 6}),
-    conc('conc_cap2_exact', 2, 'false', 2, 4, ['quick', 'thorough'],
-         'capacity 2 exact (3 slots, modulo wrap); ' + KINDS + 'producer ops 3,0,1; consumer ops 1,2,3; symbolic start offset and pre-fill; 4 scheduler rounds (thorough 6)',
+    conc('conc_cap2_exact', 2, 'false', 2, 3, ['quick', 'thorough'],
+         'capacity 2 exact (3 slots, modulo wrap); ' + KINDS + 'producer ops 3,0,1; consumer ops 1,2,3; symbolic start offset and pre-fill; 3 scheduler rounds (thorough 6)',
          VF_PK=3, VF_CK=1, thorough={'steps': 6}),
-    conc('conc_cap3_elem', 3, 'true', 3, 4, ['quick', 'thorough'],
-         'capacity 3 (4 slots); lifetime-tracked payload with scheduling points at every payload move; producer ops 2,3,0; consumer ops 2,3,0; '
-         'elements left to ~SPSCRingBuffer; 4 scheduler rounds (thorough 5)',
-         VF_ELEM=1, VF_PK=2, VF_CK=2, VF_PRE=0, thorough={'steps': 5}),
+    conc('conc_cap1_elem', 1, 'true', 1, 3, ['quick', 'thorough'],
+         'capacity 1 (2 slots); lifetime-tracked payload with scheduling points at every payload move into / out of a slot; producer ops '
+         'try_push(T&&), try_emplace; consumer ops try_pop(), try_pop_batch; no size observations; elements left to ~SPSCRingBuffer; '
+         '3 scheduler rounds (thorough 5)',
+         VF_ELEM=1, VF_PK=0, VF_CK=2, VF_NP=2, VF_NC=2, VF_PRE=0, VF_OBS=0, thorough={'steps': 5}),
+    conc('conc_cap2_elem', 2, 'false', 2, 4, ['thorough'],
+         'capacity 2 exact (3 slots); lifetime-tracked payload with scheduling points at every payload move; producer ops 2,3,0 (const T&, '
+         'batch, T&&); consumer ops 1,2,3 (pop_into, pop(), pop_batch); no size observations; elements left to ~SPSCRingBuffer; 4 scheduler rounds',
+         VF_ELEM=1, VF_PK=2, VF_CK=1, VF_PRE=0, VF_OBS=0),
     conc('conc_cap2_4ops', 2, 'true', 3, 5, ['thorough'],
          'requested capacity 2 (rounded: 4 slots, capacity 3); 4 producer ops (kinds 1,2,3,0) and 4 consumer ops (0,1,2,3); 5 scheduler rounds',
          VF_PK=1, VF_CK=0, VF_NP=4, VF_NC=4),
-    conc('conc_cap1_elem', 1, 'false', 1, 5, ['thorough'],
-         'capacity 1 exact; lifetime-tracked payload; producer ops 0,1,2,3; consumer ops 1,2,3,0; 5 scheduler rounds',
-         VF_ELEM=1, VF_PK=0, VF_CK=1, VF_NP=4, VF_NC=4),
     {'name': 'seq_cap1', 'src': 'spsc_seq.cpp', 'engine': 'cbmc', 'defs': {'VF_CAP': 1, 'VF_POW2': 'true', 'VF_OPS': 4},
      'unwind': 6, 'timeout': 1500, 'bounds': 'capacity 1; 4 symbolic operations from 8 kinds against a reference FIFO; lifetime-tracked payload',
      'thorough': {'defs': {'VF_CAP': 1, 'VF_POW2': 'true', 'VF_OPS': 6}, 'unwind': 8}},
